@@ -570,16 +570,28 @@ def validation_rules(ck, fb):
             ok = found > 0 and guarded_all
         (ck.ok if ok else lambda r, w, t: ck.violate(r, w, t, "V.span:%s" % name))("V.span", g.where, "%s creates entities only after validate_span() succeeded" % name)
     rt = [x for x in fb.by_cls.get(BFR, []) if x.name == "read_topo_chunk" and x.has_cfg][0]
-    need_names(rt, ["expected_bytes"], None, "V.span")
+    from .canon import Canon
+    import re as _re
+    rcn = Canon(rt)
+
+    def exact(cn_, blk, must):
+        for s_, pol, c in cn_.facts(blk):
+            m = _re.fullmatch(r"\(P0\.remaining_bytes\(\) != (.+)\)", s_)
+            if m and pol is False and all(w in m.group(1) for w in must):
+                return True
+            m = _re.fullmatch(r"\(P0\.remaining_bytes\(\) == (.+)\)", s_)
+            if m and pol is True and all(w in m.group(1) for w in must):
+                return True
+        return False
     for callee in ("read_edges", "read_faces", "read_cells"):
         sites = [(b, i, n) for b, i, n in rt.nodes(("call",)) if n.get("pn", "").endswith("::" + callee)]
-        ok = bool(sites) and all(any("remaining_bytes()" in estr(c) and "expected_bytes" in estr(c) and "!=" in estr(c) and pol is False for c, pol, e in rt.facts(b)) for b, i, n in sites)
-        (ck.ok if ok else lambda r, w, t: ck.violate(r, w, t, "V.span:exact:%s" % callee))("V.span", rt.where, "read_topo_chunk calls %s only when remaining_bytes() == expected_bytes" % callee)
+        ok = bool(sites) and all(exact(rcn, b, ["elem_size(", "handle_encoding"]) for b, i, n in sites)
+        (ck.ok if ok else lambda r, w, t: ck.violate(r, w, t, "V.span:exact:%s" % callee))("V.span", rt.where, "read_topo_chunk calls %s only when remaining_bytes() equals the expected payload size (handle count * elem_size(handle_encoding))" % callee)
     rv = [x for x in fb.by_cls.get(BFR, []) if x.name == "read_vertices_chunk" and x.has_cfg][0]
-    need_names(rv, ["pos_size"], None, "V.span")
+    vcn = Canon(rv)
     sites = [(b, i, n) for b, i, n in rv.nodes(("call",)) if "GeometryReader" in n.get("pn", "") and n.get("pn", "").endswith("::read")]
-    ok = bool(sites) and all(any("remaining_bytes()" in estr(c) and "pos_size" in estr(c) and "!=" in estr(c) and pol is False for c, pol, e in rv.facts(b)) for b, i, n in sites)
-    (ck.ok if ok else lambda r, w, t: ck.violate(r, w, t, "V.span:exact:vertices"))("V.span", rv.where, "read_vertices_chunk reads positions only when remaining_bytes() == count * pos_size")
+    ok = bool(sites) and all(exact(vcn, b, ["span.count", "elem_size(", "vertex_dim"]) for b, i, n in sites)
+    (ck.ok if ok else lambda r, w, t: ck.violate(r, w, t, "V.span:exact:vertices"))("V.span", rv.where, "read_vertices_chunk reads positions only when remaining_bytes() == count * elem_size * vertex_dim")
 
 
 # =============================================================================================== S
@@ -767,9 +779,10 @@ def range_rules(ck, fb):
             what = "%s: %s handle from %s" % (f.pq.split("::")[-1], kind, estr(a0)[:40])
             # audited instance: loop over a validated span
             if kind == "Vertex" and "GeometryReaderT" in f.id:
-                need_names(f, ["first", "count"], None, "R.handle (audited span loop)")
+                # by position: read(decoder, encoding, first, count) - the bound is first + count
+                pf, pc = f.d["params"][2]["n"], f.d["params"][3]["n"]
                 ub = upper_bound_guard(facts, arg)
-                ok = any("first" in estr(b) and "count" in estr(b) for b, c in ub)
+                ok = any(estr(b).replace(" ", "").strip("()") in ("%s+%s" % (pf, pc), "%s+%s" % (pc, pf)) for b, c in ub)
                 (ck.ok if ok else lambda r, w, t: ck.violate(r, w, t, "R.handle:%s:span" % f.pq))("R.handle", where, what + " is bounded by first+count of the span validated by validate_span (audited instance, V.span)")
                 continue
             if kind not in COUNTERS:
